@@ -288,7 +288,7 @@ def run(ctx):
     scan_pop(ctx, setup)
     for name_, m_ in sorted(repo.methods(INF, 'FactoredInference').items()):
         measurement_keys_kept(ctx, m_, 'projection-order')
-    lip = repo.nfunc(INF, 'FactoredInference._lipschitz')
+    lip = dense_small_case(ctx, repo.nfunc(INF, 'FactoredInference._lipschitz'))
     buffered_accumulation(ctx, lip, 'lipschitz-form')
     loss = repo.nfunc(INF, 'FactoredInference._marginal_loss')
     fix = repo.nfunc(INF, 'FactoredInference.fix_measurements')
@@ -1193,6 +1193,70 @@ def check_fix(ctx, fi, est):
 
 
 # ---- the smoothness bound ---------------------------------------------------------------------------------------------------------------
+def dense_small_case(ctx, fi):
+    """ARPACK cannot return k = 1 eigenvalue of a 1 x 1 / 2 x 2 operator, so tiny marginals may be handled densely:
+        if p <= K:  G = (Q.H * Q).matmat(np.eye(p));  eig = np.linalg.eigh(G)[0][-1]      else:  eig = eigsh(Q.H * Q, 1)[0][0]
+    The dense arm is judged here - `eigh` / `eigvalsh` return the eigenvalues in ASCENDING order, the largest is the LAST one - and the function
+    is then analysed with the iterative arm in place of the branch (on a private copy of the tree)."""
+    from ..normalise import NormFunc
+    from ..srcmodel import clone
+    node = clone(fi.node)
+    hit = None
+    for par in ast.walk(node):
+        for fld in ('body', 'orelse'):
+            blk = getattr(par, fld, None)
+            if not isinstance(blk, list):
+                continue
+            for st in blk:
+                if not (isinstance(st, ast.If) and st.body and st.orelse and isinstance(st.test, ast.Compare) and len(st.test.ops) == 1):
+                    continue
+                ends = [a[-1] for a in (st.body, st.orelse)]
+                if not all(isinstance(e_, ast.Assign) and len(e_.targets) == 1 and isinstance(e_.targets[0], ast.Name) for e_ in ends) \
+                        or ends[0].targets[0].id != ends[1].targets[0].id:
+                    continue
+                it = [any(isinstance(c, ast.Call) and U(c.func).split('.')[-1] in ('eigsh', 'eigs', 'svds') for s_ in a for c in ast.walk(s_)) for a in (st.body, st.orelse)]
+                de = [any(isinstance(c, ast.Call) and U(c.func).split('.')[-1] in ('eigh', 'eigvalsh', 'eigvals', 'eig') for s_ in a for c in ast.walk(s_)) for a in (st.body, st.orelse)]
+                if it == [False, True] and de == [True, False]:
+                    hit = (blk, st, st.body, st.orelse, True)
+                elif it == [True, False] and de == [False, True]:
+                    hit = (blk, st, st.orelse, st.body, False)
+    if hit is None:
+        return fi
+    blk, st, dense, iterative, dense_when_true = hit
+    from ..normalise import Defs, expand
+    val = expand(dense[-1].value, Defs(dense[:-1]), comps=True)
+    t = U(val).replace(' ', '')
+    # which eigenvalue
+    m = re.fullmatch(r'(?:np|numpy|scipy)\.linalg\.eigh\((.+)\)\[0\]\[(-?\d+)\]', t) or re.fullmatch(r'(?:np|numpy|scipy)\.linalg\.eigvalsh\((.+)\)\[(-?\d+)\]', t)
+    mx = re.fullmatch(r'(?:np|numpy|scipy)\.linalg\.eigvalsh\((.+)\)\.max\(\)', t) or re.fullmatch(r'(?:np\.)?max\((?:np|numpy|scipy)\.linalg\.eigvalsh\((.+)\)\)', t) \
+        or re.fullmatch(r'(?:np|numpy|scipy)\.linalg\.eigh\((.+)\)\[0\]\.max\(\)', t)
+    if not m and not mx:
+        raise AnalysisError('_lipschitz: the dense arm computes `%s`, which is in no recognised form' % U(val)[:80])
+    G = (m or mx).group(1)
+    largest = bool(mx) or m.group(2) == '-1'
+    ctx.ob('lipschitz-form', fi, dense[-1], largest,
+           'small marginals are handled densely: eigh / eigvalsh return the eigenvalues in ASCENDING order, the largest is the last one; the source takes %s'
+           % ('the largest' if largest else 'entry %s - the SMALLEST eigenvalue of Q^T Q (zero for any query with fewer independent rows than cells): the step '
+              'size bound is no bound' % m.group(2)), construct='dense eigenvalue of the small case')
+    # of which matrix: the Gram operator applied to the identity
+    mg = re.fullmatch(r'\((\w+)\.(?:H|T)(?:\*|@)\1\)\.(?:matmat|dot|matmul)\(np\.eye\((.+)\)\)', G) or re.fullmatch(r'\((\w+)\.(?:H|T)(?:\*|@)\1\)@np\.eye\((.+)\)', G) \
+        or re.fullmatch(r'\(?(\w+)\.(?:H|T)@\1\)?()', G)
+    if not mg:
+        raise AnalysisError('_lipschitz: the dense arm takes the eigenvalues of `%s`, which is not recognised as Q^T Q applied to the identity' % G[:80])
+    # the size test: a one-sided bound on the number of cells (any threshold: both arms compute the same number where both are defined)
+    tt = U(st.test).replace(' ', '')
+    if not re.fullmatch(r'[\w.()\[\]]+(<=|<|==|>|>=)\d+', tt):
+        raise AnalysisError('_lipschitz: the test `%s` choosing between the dense and the iterative eigenvalue is in no recognised form' % U(st.test)[:60])
+    i = blk.index(st)
+    blk[i:i + 1] = list(iterative)
+    ast.fix_missing_locations(node)
+    for n in ast.walk(node):
+        for ch in ast.iter_child_nodes(n):
+            ch._parent = n
+    node._parent = getattr(fi.node, '_parent', None)
+    return NormFunc(getattr(fi, 'original', fi), node, getattr(fi, 'inlined', []), getattr(fi, 'memo_issues', ()))
+
+
 def check_lipschitz(ctx, fi, s2):
     from ..normalise import Defs, expand
     Q, _, noise, proj = s2['names']
